@@ -6,8 +6,8 @@ import (
 	"flag"
 	"fmt"
 	"io/ioutil"
-	mathrand "math/rand"
 	stdlog "log"
+	mathrand "math/rand"
 	"os"
 	"runtime"
 	"strconv"
@@ -43,6 +43,7 @@ func TestMain(m *testing.M) {
 	// math/rand sets its global generator up on first use (GODEBUG lookup, maps): that must not draw from the first case's task
 	// state, or the first case of a process would differ from the same case later in a batch (jittered grafanaNet backoff)
 	mathrand.Float64()
+	raceLogInit()
 	log.SetOutput(ioutil.Discard)
 	log.SetLevel(log.ErrorLevel)
 	log.StandardLogger().ExitFunc = func(code int) { simrt.Exit(code) }
@@ -101,6 +102,10 @@ func TestWorker(t *testing.T) {
 		if err != nil {
 			fmt.Println("INFRA cannot read replay:", err)
 			os.Exit(2)
+		}
+		if r.Race && !simrt.RaceBuild {
+			fmt.Println("REPLAY-INFRA this replay was recorded by the race-detector build; bin/check --replay selects it")
+			return
 		}
 		if *fMinimise {
 			min, attempts := Minimise(t, r, envInt("CRSIM_MIN_ATTEMPTS", 400), time.Duration(envInt("CRSIM_MIN_SECONDS", 60))*time.Second)
